@@ -5,6 +5,7 @@ package main
 import (
 	"fmt"
 	"go/types"
+	"regexp"
 	"strings"
 
 	"golang.org/x/tools/go/ssa"
@@ -224,6 +225,9 @@ func intRange(t types.Type) (lo, hi string) {
 	return app("-", pow2[bits-1]), app("-", pow2[bits-1], "1")
 }
 
+var byteRe = regexp.MustCompile(`\bbyte\b`)
+var runeRe = regexp.MustCompile(`\brune\b`)
+
 // typeName gives a stable short name for heap-map naming.
 func typeName(t types.Type) string {
 	s := types.TypeString(t, func(p *types.Package) string {
@@ -232,6 +236,9 @@ func typeName(t types.Type) string {
 		}
 		return p.Name()
 	})
+	s = byteRe.ReplaceAllString(s, "uint8")
+	s = runeRe.ReplaceAllString(s, "int32")
+	s = strings.ReplaceAll(s, "interface{}", "any")
 	r := strings.NewReplacer(" ", "_", "*", "P_", "[", "L", "]", "J", "(", "_", ")", "_", "{", "_", "}", "_", ",", "_", ";", "_", "/", "_")
 	return r.Replace(s)
 }
